@@ -45,6 +45,8 @@ instance : Monad M where
   bind := M.bind
 
 @[simp] theorem pure_run {α} (a : α) (s : St) : (pure a : M α) s = .ok a s := rfl
+@[simp] theorem Res.bind_pure_unit (r : Res Unit) : r.bind (fun _ => (pure () : M Unit)) = r := by
+  cases r <;> rfl
 @[simp] theorem bind_run {α β} (m : M α) (f : α → M β) (s : St) :
     (m >>= f) s = (m s).bind f := rfl
 @[simp] theorem map_run {α β} (g : α → β) (m : M α) (s : St) :
